@@ -287,7 +287,7 @@ def run(ctx: Ctx) -> int:
         ctx.sample({"json": json.dumps(to_py(it[0])), "cel": it[1]})
     # code -> spec
     rng = random.Random(ctx.seed)
-    docs = [(rand_doc(rng, rng.randint(1, 4)), j) for j in range(300 if q else 8000)]
+    docs = [(rand_doc(rng, rng.randint(1, 4)), j) for j in range(300 if q else 40000)]
     res = pmap(_observe_random, docs)
     lines, index = [], []
     for (doc, style), (celw, back, pvi, pvc) in zip(docs, res):
